@@ -76,3 +76,28 @@ func (fr *Frame) floatToInt(x *ssa.Convert, v SV) bool {
 	fr.vals[x] = SV{t: n, typ: x.Type()}
 	return true
 }
+
+// mathPowConst models math.Pow(x, y) for CONSTANT arguments whose result is an integer below 2^53 (e.g. math.Pow(10, 8)): the
+// result is the value Go's own math.Pow computes at analysis time (the same pure-Go routine the program runs).
+func (fr *Frame) mathPowConst(key string, c *ssa.CallCommon) ([]SV, bool) {
+	if key != "math.Pow" || len(c.Args) != 2 {
+		return nil, false
+	}
+	cx, ok1 := c.Args[0].(*ssa.Const)
+	cy, ok2 := c.Args[1].(*ssa.Const)
+	if !ok1 || !ok2 || cx.Value == nil || cy.Value == nil {
+		return nil, false
+	}
+	x, _ := constant.Float64Val(cx.Value)
+	y, _ := constant.Float64Val(cy.Value)
+	r := math.Pow(x, y)
+	if math.IsNaN(r) || math.IsInf(r, 0) || r != math.Trunc(r) || math.Abs(r) >= 9007199254740992 {
+		return nil, false
+	}
+	fr.fc.assumes["trusted model: math.Pow of two constants with an integer result below 2^53 is the value Go's math.Pow computes (evaluated at analysis time)"] = true
+	t := num(int64(math.Abs(r))) + ".0"
+	if r < 0 {
+		t = "(- " + t + ")"
+	}
+	return []SV{{t: t, typ: types.Typ[types.Float64]}}, true
+}
